@@ -236,11 +236,13 @@ def run_case(case, ctx):
 
     # (5b) the values belong to the basis state, not to its position in the batch or to how the batch lies in memory:
     # arbitrary row order, duplicates, one-row and all-equal batches, strided / column-major / sliced / expanded views
-    for rep_ in range(3):
-        m_ = [1, int(rng.integers(2, 2 * N + 2)), int(rng.integers(2, 7))][rep_]
+    for rep_ in range(4):
+        m_ = [1, int(rng.integers(2, 2 * N + 2)), int(rng.integers(2, 7)), int(rng.integers(2, N + 1))][rep_]
         idx_ = rng.integers(0, N, size=m_)
         if rep_ == 2:
             idx_[:] = idx_[0]
+        if rep_ == 3:  # pairwise distinct rows in no particular order (a de-duplicated data set)
+            idx_ = rng.permutation(N)[:m_]
         batch, form = gen.memory_form(sp[idx_.tolist()].clone(), rng)
         keep = batch.clone()
         pb = ctx.lib("psi(batch)", st.psi, batch, tags={"state": kind, "memory_form": form})
